@@ -594,7 +594,7 @@ func r08d(c *core.Ctx) {
 		collect(st.Val, b)
 		for _, lf := range leaves {
 			if k, ok := core.ConstInt(lf.v); ok {
-				if k == 1 && hasCond(lf.blk, ".TTL > delta)", false) {
+				if k == 1 && (hasCond(lf.blk, ".TTL > delta)", false) || hasCond(lf.blk, ".TTL < delta)", true)) {
 					armOne = true
 				} else {
 					armBad = fmt.Sprintf("constant %d stored", k)
@@ -605,6 +605,23 @@ func r08d(c *core.Ctx) {
 			if strings.HasSuffix(e, ".TTL - delta)") && hasCond(lf.blk, ".TTL > delta)", true) {
 				armSub = true
 				continue
+			}
+			// max(TTL-delta, 1) where TTL >= delta is known (no wrap; the floor 1 covers TTL == delta)
+			if mc, isCall := lf.v.(*ssa.Call); isCall {
+				if bi, isB := mc.Call.Value.(*ssa.Builtin); isB && bi.Name() == "max" && len(mc.Call.Args) == 2 {
+					one, sub := false, false
+					for _, a := range mc.Call.Args {
+						if k, isC := core.ConstInt(a); isC && k == 1 {
+							one = true
+						} else if strings.HasSuffix(core.Expr(a), ".TTL - delta)") {
+							sub = true
+						}
+					}
+					if one && sub && (hasCond(lf.blk, ".TTL < delta)", false) || hasCond(lf.blk, ".TTL >= delta)", true)) {
+						armSub, armOne = true, armOne || true
+						continue
+					}
+				}
 			}
 			armBad = "stores " + e + " under " + condList(lf.blk)
 		}
